@@ -418,7 +418,7 @@ def _planted(ur):
 
 # re-register the planner properties with an additional source-level (e2e) part
 for _name, _kinds, _rule in [
-        ("C05", {"dup": "multi:", "dupset": "multi:"}, "two sources for one type"),
+        ("C05", {"dup": "multi:", "dupset": "multi:", "duparg": "multi:"}, "two sources for one type"),
         ("C06", {"missing": ("noprov:", "bindmissing:"), "missingtwin": ("noprov:", "bindmissing:"), "missingform": ("noprov:", "bindmissing:")}, "a needed source removed"),
         ("C08", {"unused": "unused", "twinunused": "unusedprov:", "unusedtwin": "unusedprov:", "emptyinline": "unusedset:"}, "a superfluous direct item")]:
     _unit_nt = {"C05": _nt_dups, "C06": _nt_missing, "C08": _nt_unused}[_name]
